@@ -152,6 +152,10 @@ def cases(run: Run):
         ydim = rng.choice([2, 3, 4])
         pattern = rng.choice(["generic", "dominant", "underflow-all", "underflow-some", "underflow-first", "close"])
         steps = rng.randint(1, 4)
+        # a third of the cases at orbital magnitudes: states of thousands of km that differ between models by metres, covariances of
+        # (metres)^2 and (mm/s)^2 - where a covariance formed as a difference of large second moments loses all its digits
+        regime = "orbital" if rng.random() < 0.35 else "unit"
+        base = [Fraction(7000), Fraction(-1200), Fraction(300), Fraction(1), Fraction(29, 4), Fraction(-1, 2)]
         models = []
         for i in range(n):
             script = []
@@ -168,6 +172,21 @@ def cases(run: Run):
                     nis = 4000 if i == 0 else 2.0
                 else:
                     nis = rng.choice([4000, 2, 3, 5])
+                if regime == "orbital":
+                    sx = [Fraction(1, 1000)] * 3 + [Fraction(1, 10**6)] * 3
+                    sig = rng.choice([Fraction(1, 1000), Fraction(1, 10000), Fraction(1, 100)])  # 1 m, 10 cm, 10 m
+                    sp = [sig * sig] * 3 + [sig * sig / 10**6] * 3
+                    script.append(
+                        {
+                            "pred_x": [base[j] + Fraction(rng.randint(-64, 64), 8) * sx[j] for j in range(XD)],
+                            "est_x": [base[j] + Fraction(rng.randint(-64, 64), 8) * sx[j] for j in range(XD)],
+                            "pred_p": [Fraction(rng.randint(1, 32), 8) * sp[j] for j in range(XD)],
+                            "est_p": [Fraction(rng.randint(1, 32), 8) * sp[j] for j in range(XD)],
+                            "nis": Fraction(nis),
+                            "innov": [Fraction(rng.choice([1, 2, 4, 8]), rng.choice([1, 2, 4])) for _ in range(ydim)],
+                        }
+                    )
+                    continue
                 script.append(
                     {
                         "pred_x": [Fraction(rng.randint(-64, 64), 8) for _ in range(XD)],
@@ -188,7 +207,7 @@ def cases(run: Run):
             w0 = [Fraction(x, sum(raw)) for x in raw]
         out.append(
             {
-                "kind": kind, "n": n, "ydim": ydim, "pattern": pattern, "steps": steps, "models": models, "w0": w0,
+                "kind": kind, "n": n, "ydim": ydim, "pattern": pattern, "steps": steps, "models": models, "w0": w0, "regime": regime,
                 "thr": rng.choice([Fraction(1, 10**10), Fraction(1, 100), Fraction(1, 20), Fraction(1, 5), Fraction(2, 5)]),
                 "pct": rng.choice([Fraction(997, 1000), Fraction(9, 10), Fraction(3, 5), Fraction(4, 5)]),
                 "mix": rng.choice([Fraction(3, 2), Fraction(1), Fraction(10), Fraction(1, 2)]),
@@ -286,19 +305,27 @@ def oracle(run: Run, c, impl):
             run.count("evidence-underflow")
         # combined estimate = probability-weighted mean, covariance = moment-matched mixture, symmetric PSD
         d1 = step_data(c, st["ids"], k)
-        xs = np.array([[float(x) for x in d["est_x"]] for d in d1])
-        ps = [np.diag([float(x) for x in d["est_p"]]) for d in d1]
-        wv = np.array(w)
-        mean = wv @ xs
-        cov = sum(wi * (p + np.outer(x - mean, x - mean)) for wi, x, p in zip(wv, xs, ps))
-        if not np.allclose(st["est_x"], mean, rtol=1e-9, atol=1e-9):
+        # exact moments of the mixture with the reported weights (rational arithmetic), compared on the scale of the covariance itself:
+        # |error_ij| <= 1e-6 sqrt(cov_ii cov_jj), so a covariance of (1 m)^2 on a state of 7000 km is held to the same standard as a unit one
+        wq = [Fraction(x) for x in w]
+        wsum = sum(wq)
+        meanq = [sum(wi * Fraction(d["est_x"][j]) for wi, d in zip(wq, d1)) / wsum for j in range(XD)]
+        covq = [[sum(wi * ((Fraction(d["est_p"][i]) if i == j else 0) + (Fraction(d["est_x"][i]) - meanq[i]) * (Fraction(d["est_x"][j]) - meanq[j]))
+                     for wi, d in zip(wq, d1)) / wsum for j in range(XD)] for i in range(XD)]
+        mean = np.array([float(x) for x in meanq])
+        cov = np.array([[float(x) for x in r] for r in covq])
+        sd = np.sqrt(np.diag(cov))
+        scale = np.outer(sd, sd)
+        if not all(abs(a_ - b_) <= 1e-9 * max(1.0, abs(b_)) for a_, b_ in zip(st["est_x"], mean)):
             fails.append((f"{kind}:mean", f"step {k}: est_x is not the probability-weighted mean"))
             break
         ep = np.array(st["est_p"])
-        if not np.allclose(ep, cov, rtol=1e-9, atol=1e-9):
-            fails.append((f"{kind}:cov", f"step {k}: est_p is not the moment-matched mixture covariance"))
+        if not (np.abs(ep - cov) <= 1e-6 * scale + 1e-300).all():
+            worst = float(np.max(np.abs(ep - cov) / (scale + 1e-300)))
+            fails.append((f"{kind}:cov", f"step {k}: est_p is not the moment-matched mixture covariance (off by {worst:.3g} of sqrt(P_ii P_jj), regime {c.get('regime', 'unit')})"))
             break
-        if not np.allclose(ep, ep.T, atol=1e-12) or np.linalg.eigvalsh((ep + ep.T) / 2).min() < -1e-9:
+        corr = ((ep + ep.T) / 2) / (scale + 1e-300)
+        if not (np.abs(ep - ep.T) <= 1e-9 * scale).all() or np.linalg.eigvalsh(corr).min() < -1e-6:
             fails.append((f"{kind}:cov-psd", f"step {k}: est_p not symmetric positive semi-definite"))
             break
         if st["closed"]:
@@ -308,13 +335,14 @@ def oracle(run: Run, c, impl):
                     fails.append((f"{kind}:handback-blend", f"step {k}: estimation closed with {len(st['ids'])} models still active"))
                     break
                 d = d1[0]
-                if not np.allclose(st["cf_est_x"], [float(x) for x in d["est_x"]], atol=1e-12) or not np.allclose(
-                    st["cf_est_p"], np.diag([float(x) for x in d["est_p"]]), atol=1e-12
-                ):
+                pd = np.array([float(x) for x in d["est_p"]])
+                if not np.allclose(st["cf_est_x"], [float(x) for x in d["est_x"]], rtol=1e-12, atol=1e-12) or not (
+                    np.abs(np.array(st["cf_est_p"]) - np.diag(pd)) <= 1e-9 * np.sqrt(np.outer(pd, pd))
+                ).all():
                     fails.append((f"{kind}:handback", f"step {k}: the filter handed back is not the surviving model {st['ids'][0]}"))
                     break
             else:
-                if not np.allclose(st["cf_est_x"], mean, atol=1e-9) or not np.allclose(st["cf_est_p"], cov, atol=1e-9):
+                if not np.allclose(st["cf_est_x"], mean, rtol=1e-9, atol=1e-9) or not (np.abs(np.array(st["cf_est_p"]) - cov) <= 1e-6 * scale + 1e-300).all():
                     fails.append((f"{kind}:handback", f"step {k}: the filter handed back differs from the combined estimate"))
                     break
     return fails
@@ -335,6 +363,7 @@ def run_cases(run: Run, cs):
         jc = enc(c)
         small = {k: v for k, v in jc.items() if k != "models"} | {"model0_step0": jc["models"][0][0]}
         run.case(c["kind"], small, nontrivial=True, branch=c["pattern"])
+        run.count(f"regime:{c.get('regime', 'unit')}")
         run.count(f"n={c['n']}")
         if outs is not None and i[0] == "ok":
             run.model_compared += 1
